@@ -226,10 +226,12 @@ func CheckMain(args []string) int {
 		if n := st.PathsUnsupported + st.PathsBudget + st.AssertsUnknown; n > 0 || res.Run.TimedOut {
 			fmt.Printf("INCONCLUSIVE property=%s harness=%s: unsupported=%d budget=%d unknown-asserts=%d timedout=%v (not counted as explored)\n",
 				id, hs.Fn, st.PathsUnsupported, st.PathsBudget, st.AssertsUnknown, res.Run.TimedOut)
-			// Paths the engine could not execute or assertions no solver decided
-			// are not a pass: exit 2 ("cannot decide"). A wall-clock timeout only
-			// reduces the explored part (recorded in the evidence).
-			if n > 0 && exit == 0 {
+			// Paths the engine could not execute (a construct without a model) are
+			// deterministic and never occur on the unchanged tree: exit 2 ("cannot
+			// decide"). Solver time-outs, exhausted budgets and the wall-clock limit
+			// depend on machine load: they reduce the explored part, which the
+			// evidence records, and the exit status reflects what was explored.
+			if st.PathsUnsupported > 0 && exit == 0 {
 				exit = 2
 			}
 		}
